@@ -71,5 +71,6 @@ package lifecycle
 // published, and the run is published before the status says Running.
 //verif:func (*Service).runPipeline(s, rp) (err)
 //verif:call[publish-after-goroutines-registered] csync.(*Map).Set requires arg2 == rp && called("tomb.(*Tomb).Go") && count("builtin.close") >= 1
-//verif:call[publish-before-status] PipelineService.UpdateStatus requires called("csync.(*Map).Set") && arg2 == StatusRunning
+//verif:call[publish-before-status] PipelineService.UpdateStatus requires called("csync.(*Map).Set") && arg2 == StatusRunning && count("builtin.close") == 1
+//verif:call[cleanup-released-only-after-the-running-status-write-returned] builtin.close requires count("builtin.close") == 0 && !called("csync.(*Map).Set") || count("builtin.close") == 1 && called("csync.(*Map).Set") && called("PipelineService.UpdateStatus")
 //verif:ensures[startup-signalled-on-every-path-after-publication] called("csync.(*Map).Set") ==> count("builtin.close") == 2
